@@ -125,7 +125,11 @@ func Retain(trace *util.NDJSON) int {
 			_, werr = coll.InsertOne(ctx, bson.D{{Key: "_id", Value: int32(i)}})
 		}
 		if werr != nil {
-			util.Die("retain write: %v", werr)
+			// a valid write is refused while the engine trims its change log: recorded as a removal that is not a prefix
+			trace.Write(V{"fn": "clean", "len": len(before) + 1, "ages": []interface{}{}, "minSize": 2, "maxSize": 4, "minAge": 1, "maxAge": 3600,
+				"dropped": -1, "prefix": false, "dirty": true, "err": werr.Error()})
+			n++
+			break
 		}
 		after := tsOf()
 		if len(after) == 0 {
